@@ -160,7 +160,7 @@ pub fn run(ctx: &Ctx) -> i32 {
             triples: ctx.tier == fw::Tier::Thorough,
             bom_prefixes: true,
             random_per_enc: ctx.n(4_000, 120_000),
-            profile: Profile { max_tokens: ctx.tier.pick(10, 40), small_caps_weight: 200, queries: true, modes: &hist::ALL_MODES, sinks: &hist::ALL_SINKS, bom_prefix_weight: 64 },
+            profile: Profile { max_tokens: ctx.tier.pick(10, 40), small_caps_weight: 200, queries: true, exact_queries: true, modes: &hist::ALL_MODES, sinks: &hist::ALL_SINKS, bom_prefix_weight: 64 },
             fills: vec![0xA5],
         };
         st.merge(dech::run_dec_check(ctx, &dc));
@@ -176,7 +176,7 @@ pub fn run(ctx: &Ctx) -> i32 {
             core_max_chars: ctx.tier.pick(2, 3),
             core_max_chars_2022: 3,
             random_per_enc: ctx.n(5_000, 120_000),
-            profile: EProfile { max_chars: ctx.tier.pick(12, 64), small_caps_weight: 200, queries: true, mappable_only: false },
+            profile: EProfile { max_chars: ctx.tier.pick(12, 64), small_caps_weight: 200, queries: true, exact_queries: true, mappable_only: false },
             mappable_only_when_repl: true,
         };
         st.merge(ench::run_enc_check(ctx, &ec));
